@@ -36,6 +36,7 @@ type c08Scenario struct {
 	Warm    int        `json:"warm_up_backlog,omitempty"` // > 0: two sequential backlogs of this size go through the wrapper first
 	Nested  bool       `json:"wrapper_of_a_wrapper_both_handles_used,omitempty"`
 	Bound   int        `json:"wrapped_structure_capacity,omitempty"`
+	NilVal  int        `json:"value_stored_as_nil_pointer,omitempty"`
 	Trim    []int      `json:"node_pool_trimmed_before,omitempty"` // [m, n]: m values go through the wrapper, then the owner trims the wrapped list's node pool to n
 
 	h          *Hist
@@ -48,7 +49,12 @@ type c08Scenario struct {
 
 func genC08(t *simrt.Tape, tier string) Scenario {
 	sc := &c08Scenario{probes: map[string]int{}}
-	sc.Kind = []string{"queue-ll", "stack-ll", "queue-slice", "stack-slice"}[t.Choose(4)]
+	sc.Kind = []string{"queue-ll", "stack-ll", "queue-slice", "stack-slice", "queue-ptr", "stack-ptr"}[t.Choose(6)]
+	if strings.HasSuffix(sc.Kind, "-ptr") {
+		// pointer element type over the real LinkedListQueue; one of the first values is stored as a nil pointer
+		// (an element like any other)
+		sc.NilVal = 1 + t.Choose(4)
+	}
 	if strings.HasSuffix(sc.Kind, "-ll") && t.Bool(1, 12) {
 		// the wrapped LinkedListQueue has been used heavily before the concurrent phase starts
 		sc.Warm = 130 + t.Choose(60)
@@ -179,20 +185,39 @@ func (sc *c08Scenario) Run(s *simrt.Sim) {
 	case "stack-slice":
 		stack = &sliceQueue{s: s, bound: sc.Bound}
 	}
-	var cq *fpgo.ConcurrentQueue[int]
-	var cs *fpgo.ConcurrentStack[int]
-	if queue != nil {
-		cq = fpgo.NewConcurrentQueue[int](queue)
-	} else {
-		cs = fpgo.NewConcurrentStack[int](stack)
-	}
-	innerQ, innerS := cq, cs
-	if sc.Nested {
-		if cq != nil {
-			cq = fpgo.NewConcurrentQueue[int](innerQ)
-		} else {
-			cs = fpgo.NewConcurrentStack[int](innerS)
+	var cq fpgo.Queue[int]
+	var cs fpgo.Stack[int]
+	var innerQ fpgo.Queue[int]
+	var innerS fpgo.Stack[int]
+	switch {
+	case sc.Kind == "queue-ptr":
+		in := fpgo.NewConcurrentQueue[*c08Box](fpgo.NewLinkedListQueue[*c08Box]())
+		innerQ, cq = c08PtrQ{q: in, nilVal: sc.NilVal}, c08PtrQ{q: in, nilVal: sc.NilVal}
+		if sc.Nested {
+			cq = c08PtrQ{q: fpgo.NewConcurrentQueue[*c08Box](in), nilVal: sc.NilVal}
 		}
+		sc.probes["pointer-elements-one-of-them-nil"]++
+	case sc.Kind == "stack-ptr":
+		in := fpgo.NewConcurrentStack[*c08Box](fpgo.NewLinkedListQueue[*c08Box]())
+		innerS, cs = c08PtrS{q: in, nilVal: sc.NilVal}, c08PtrS{q: in, nilVal: sc.NilVal}
+		if sc.Nested {
+			cs = c08PtrS{q: fpgo.NewConcurrentStack[*c08Box](in), nilVal: sc.NilVal}
+		}
+		sc.probes["pointer-elements-one-of-them-nil"]++
+	case queue != nil:
+		in := fpgo.NewConcurrentQueue[int](queue)
+		innerQ, cq = in, in
+		if sc.Nested {
+			cq = fpgo.NewConcurrentQueue[int](in)
+		}
+	default:
+		in := fpgo.NewConcurrentStack[int](stack)
+		innerS, cs = in, in
+		if sc.Nested {
+			cs = fpgo.NewConcurrentStack[int](in)
+		}
+	}
+	if sc.Nested {
 		sc.probes["wrapper-of-a-wrapper"]++
 	}
 	outerQ, outerS := cq, cs
@@ -303,6 +328,51 @@ func (sc *c08Scenario) Run(s *simrt.Sim) {
 			break
 		}
 	}
+}
+
+// pointer-typed elements: value NilVal travels as a nil *c08Box, every other value in a box of its own
+type c08Box struct{ v int }
+
+type c08PtrQ struct {
+	q      *fpgo.ConcurrentQueue[*c08Box]
+	nilVal int
+}
+
+func c08Wrap(v, nilVal int) *c08Box {
+	if v == nilVal {
+		return nil
+	}
+	return &c08Box{v}
+}
+func c08Unwrap(p *c08Box, err error, nilVal int) (int, error) {
+	if err != nil {
+		return 0, err
+	}
+	if p == nil {
+		return nilVal, nil
+	}
+	return p.v, nil
+}
+func (a c08PtrQ) Offer(v int) error { return a.q.Offer(c08Wrap(v, a.nilVal)) }
+func (a c08PtrQ) Put(v int) error   { return a.q.Put(c08Wrap(v, a.nilVal)) }
+func (a c08PtrQ) Poll() (int, error) {
+	p, err := a.q.Poll()
+	return c08Unwrap(p, err, a.nilVal)
+}
+func (a c08PtrQ) Take() (int, error) {
+	p, err := a.q.Take()
+	return c08Unwrap(p, err, a.nilVal)
+}
+
+type c08PtrS struct {
+	q      *fpgo.ConcurrentStack[*c08Box]
+	nilVal int
+}
+
+func (a c08PtrS) Push(v int) error { return a.q.Push(c08Wrap(v, a.nilVal)) }
+func (a c08PtrS) Pop() (int, error) {
+	p, err := a.q.Pop()
+	return c08Unwrap(p, err, a.nilVal)
 }
 
 type c08In struct {
